@@ -371,7 +371,8 @@ func (runInfo *runInfoStruct) invokeLetSliceExpr(expr *ast.SliceExpr) {
 		}
 
 		// 0 <= (low <= high) <= len(a)
-		if beginIndex > endIndex {
+		// len(a) is checked again, evaluating the indexes can change the item
+		if beginIndex > endIndex || endIndex > item.Len() {
 			runInfo.err = newStringError(expr, "index out of range")
 			runInfo.rv = nilValue
 			return
